@@ -69,6 +69,7 @@ def transfer(method, l1, l2, sszx, cexp, reduce_at, reduce_to, misbehave, seed, 
         out["bodies"] = [b for (_, _, b) in srv.bodies]
         out["size1"] = list(srv.size1)
         out["exchanges"] = len(srv.received)
+        out["changed_served"] = srv.changed_served
         out["loopexc"] = [core.exc_desc(e) if e else msg for msg, e in w.loop_exceptions()]
         out["wire_blocks"] = [rc.unblock(rc.opt(mm[4], 27)) for (_, mm, _) in srv.received if mm and rc.opt(mm[4], 27) is not None][:8]
         return out, pl, rep
@@ -112,7 +113,7 @@ def check_transfer(res, params, seed):
             res.violate(Violation("corrupt-body-returned", "error or the exact representation",
                                   "%d bytes, first difference at %s" % (len(out["payload"]), first_diff(out["payload"], rep)),
                                   "message.py:_append_response_block", case, key=mis[0]))
-        if mis[0] in ("b2-etag", "b2-etag-dropped") and 1 <= mis[1] and out["exchanges"] > mis[1] + (1 if method == "GET" else 0) and not failed_loudly and out["done"]:
+        if mis[0] in ("b2-etag", "b2-etag-dropped") and 1 <= mis[1] and out["changed_served"] and not failed_loudly and out["done"]:
             res.violate(Violation("representation-change-accepted", "error when the ETag differs between blocks",
                                   "returned %r" % out["code"], "message.py:_append_response_block", case, key="etag"))
         if not out["done"]:
